@@ -72,6 +72,8 @@ WRAPPERS = [
     "{% if true %}{% assign a = 'inIf' %}@@{% endif %}",
     "{% liquid\n assign a = 'L'\n increment c\n%}@@",
     "{% capture b %}@@{% endcapture %}{{ b }}",
+    # the caller uses a context-aware filter (a lambda that reads a free name) before the partial does
+    "{% assign a = 'LA' %}{{ arr | map: q => a | join: ',' }}{{ arr | where: q => a == 'LA' | size }}@@",
 ]
 
 # ---- bodies of the partial / macro (over the same pool)
@@ -95,6 +97,8 @@ BODY_STMTS = [
     "{% for i in arr offset: continue %}{{ i }}{% endfor %}",
     "{% for a in arr %}{{ a }}{% endfor %}",
     "{% for q in (1..2) %}{{ forloop.parentloop.index }}{{ forloop.parentloop.length }}{{ forloop.parentloop.name }}{% endfor %}",
+    "{{ arr | map: q => a | join: ',' }}{{ arr | where: q => a == 'LA' | size }}",
+    "{% assign a = 'pa2' %}{{ arr | map: q => a | join: ',' }}",
     "{% call m 'z' %}",
     "{% macro m x %}partialM{% endmacro %}",
     "{% render 'inner' %}",
@@ -110,7 +114,7 @@ MACRO_ARGS = ["", " 'posX'", " x: g", " 'posX', a: 'kwA'"]
 
 SUFFIX = (
     SUF_O + "{{ a }}|{{ b }}|{{ c }}|{{ g }}|{{ x }}|{% cycle 1, 2 %}|{% cycle 'grp': 1, 2 %}|"
-    "{% for i in arr offset: continue %}{{ i }}{% endfor %}|{% increment c %}|{% increment a %}|{% call m 'q' %}" + SUF_C
+    "{% for i in arr offset: continue %}{{ i }}{% endfor %}|{% increment c %}|{% increment a %}|{% call m 'q' %}|{{ arr | map: q => a | join: ',' }}" + SUF_C
 )
 
 DATA = [
@@ -270,6 +274,17 @@ CONSTRUCTS = [
     ("macro-param", "{%% macro mc %(n)s %%}{{ %(n)s }}{%% endmacro %%}{%% call mc 'inner' %%}"),
     ("macro-default", "{%% macro md %(n)s: 'dflt' %%}{{ %(n)s }}{%% endmacro %%}{%% call md %%}"),
     ("translate-arg", "{%% translate %(n)s: 'inner' %%}T{{ %(n)s }}{%% endtranslate %%}"),
+    # bindings whose VALUE is nil: a name bound to nil is bound (the outer variable of that name stays hidden)
+    ("with-nil", "{%% with %(n)s: nil %%}[{{ %(n)s }}|{%% if %(n)s == nil %%}N{%% else %%}V{%% endif %%}]{%% endwith %%}"),
+    ("for-nil-items", "{%% for %(n)s in nils %%}[{{ %(n)s }}|{%% if %(n)s == nil %%}N{%% else %%}V{%% endif %%}%(exit)s]{%% endfor %%}"),
+    ("tablerow-nil-items", "{%% tablerow %(n)s in nils %%}{%% if %(n)s == nil %%}N{%% else %%}V{%% endif %%}{%% endtablerow %%}"),
+    ("include-arg-nil", "{%% include 'show', %(n)s: nil %%}"),
+    ("render-arg-nil", "{%% render 'show', %(n)s: nil %%}"),
+    ("render-for-nil", "{%% render 'show' for nils as %(n)s %%}"),
+    ("macro-param-nil", "{%% macro mn %(n)s %%}{%% if %(n)s == nil %%}N{%% else %%}V{%% endif %%}{%% endmacro %%}{%% call mn nil %%}"),
+    ("macro-default-nil", "{%% macro mo %(n)s: nil %%}{%% if %(n)s == nil %%}N{%% else %%}V{%% endif %%}{%% endmacro %%}{%% call mo %%}"),
+    ("translate-arg-nil", "{%% translate %(n)s: nil %%}T{{ %(n)s }}{%% endtranslate %%}"),
+    ("nil-items-lambda", "{{ nils | map: %(n)s => %(n)s | join: '+' }}{{ nils | where: %(n)s => %(n)s == nil | size }}"),
     ("capture-for", "{%% capture cc %%}{%% for %(n)s in arr %%}{{ %(n)s }}%(exit)s{%% endfor %%}{%% endcapture %%}"),
     ("forloop-name", "{%% for zz in arr %%}{{ forloop.index }}%(exit)s{%% endfor %%}"),
 ]
@@ -323,18 +338,28 @@ def check_construct(case: dict[str, Any], res: ShardResult | None) -> list[tuple
     else:
         pre = dict(OUTER)[outer] % {"n": nm} if dict(OUTER)[outer] else ""
         src = pre + probe + src_c + probe
-    data: dict[str, Any] = {"arr": [1, 2, 3], "objs": [{"k": 1}, {"k": 2}, {"k": 2}]}
+    data: dict[str, Any] = {"arr": [1, 2, 3], "objs": [{"k": 1}, {"k": 2}, {"k": 2}], "nils": [1, None, 3]}
     if outer == "global":
         data[nm] = "outerG" if nm != "arr" else data["arr"]
     if nm == "arr" and outer in ("assign", "capture", "with"):
         # binding the iterable's own name: keep an iterable for the loop through a second name
         src = src.replace(" in arr ", " in arr2 ").replace(" for arr as", " for arr2 as")
         data["arr2"] = [1, 2, 3]
-    env = impl.make_env(templates={"show": "({{ " + nm + " }})"}, shopify=True)
+    env = impl.make_env(templates={"show": "({{ " + nm + " }}|{% if " + nm + " == nil %}N{% else %}V{% endif %})"}, shopify=True)
     o = _render(env, src, data)
     if res is not None:
         res.evaluations += 1
         res.outcomes.add(h64([o[0], case["construct"]]))
+    # what the construct itself prints (between the two probes) must not depend on how the name is bound outside it:
+    # the construct binds the name, so the outer binding is hidden (compared with the 'unbound' variant of the same case)
+    if outer not in ("unbound", "global") and o[0] == "ok" and not _inner_reads_outer(case):
+        # (the reference is the variant where the name is bound in the data: the probes of the unbound variant cannot be
+        #  printed, `undefined | json` is an error)
+        ref = _render_variant({**case, "outer": "global"})
+        if ref[0] == "ok":
+            mine, theirs = _between(o[1]), _between(ref[1])
+            if mine is not None and theirs is not None and mine != theirs:
+                out.append((f"C07:outer-binding-visible-inside-construct:{case['construct']}", {**case, "source": src}, {"inside_when_bound_in_data": theirs}, {"inside": mine, "output": o[1]}))
     if o[0] == "foreign":
         out.append((f"C07:foreign-exception:{case['construct']}", case, "no foreign exception", o))
         return out
@@ -351,9 +376,46 @@ def check_construct(case: dict[str, Any], res: ShardResult | None) -> list[tuple
             )
         if res is not None and len(probes) == 2:
             res.nontrivial.add(h64(case))
+    if _VARIANT[0]:
+        return out
     # error exits: a fault at every data access inside the block, then reuse the same context
     out.extend(_fault_exits(env, case, src, nm, data, res))
     return out
+
+
+def _between(out: str) -> str | None:
+    i, j = out.find("⟩"), out.rfind("⟨")
+    return out[i + 1 : j] if 0 <= i < j else None
+
+
+def _inner_reads_outer(case: dict[str, Any]) -> bool:
+    """Constructs whose printed part legitimately shows the outer value: the else branch of an empty loop, text printed
+    after an inner loop ended, and the loop whose iterable IS the outer name."""
+    return case["construct"] in ("for-else", "for-range-nested", "forloop-name") or case["name"] == "arr"
+
+
+def _render_variant(case: dict[str, Any]) -> tuple[str, Any]:
+    r = ShardResult()
+    holder: list[tuple[str, Any]] = []
+    orig = globals()["_render"]
+
+    def spy(env: Any, src: str, d: dict[str, Any]) -> tuple[str, Any]:
+        o = orig(env, src, d)
+        if not holder:
+            holder.append(o)
+        return o
+
+    globals()["_render"] = spy
+    try:
+        _VARIANT[0] = True
+        check_construct(case, None)
+    finally:
+        _VARIANT[0] = False
+        globals()["_render"] = orig
+    return holder[0] if holder else ("none", None)
+
+
+_VARIANT = [False]
 
 
 class _Boom(Exception):
@@ -459,13 +521,18 @@ INCLUDE_PLACEMENTS = [
     "{% for i in nothing %}{% else %}{% include 'inner' %}{% endfor %}",
     "{% assign nm = 'inner' %}{% include nm %}",
     "{% include 'inner' for arr as z %}",
+    # through template inheritance: the include sits in an overriding block, or in the parent's own block
+    "{% extends 'pbase' %}{% block b %}{% include 'inner' %}{% endblock %}",
+    "{% extends 'pbase2' %}",
+    "{% extends 'pbase2' %}{% block b %}<{{ block.super }}>{% endblock %}",
+    "{% extends 'pbase' %}{% block b %}{% for i in (1..1) %}{% if true %}{% include 'inner' %}{% endif %}{% endfor %}{% endblock %}",
 ]
 
 
 def check_include_refused(i: int, res: ShardResult | None) -> list[tuple[str, Any, Any, Any]]:
     out: list[tuple[str, Any, Any, Any]] = []
     placement = INCLUDE_PLACEMENTS[i]
-    templates = {"inner": "INNER", "inc": "{% include 'inner' %}", "p": placement}
+    templates = {"inner": "INNER", "inc": "{% include 'inner' %}", "p": placement, "pbase": "[{% block b %}{% endblock %}]", "pbase2": "[{% block b %}{% include 'inner' %}{% endblock %}]"}
     env = impl.make_env(templates=templates)
     srcs = {
         "render": "{% render 'p' %}",
@@ -474,6 +541,8 @@ def check_include_refused(i: int, res: ShardResult | None) -> list[tuple[str, An
         "macro": "{% macro mm %}" + placement + "{% endmacro %}{% call mm %}",
         "macro-in-for": "{% macro mm %}" + placement + "{% endmacro %}{% for q in (1..1) %}{% call mm %}{% endfor %}",
     }
+    if "extends" in placement:
+        del srcs["macro"], srcs["macro-in-for"]  # (extends is not meaningful inside a macro body)
     env.loader.templates["inc2"] = "{% render 'p' %}"
     for how, src in srcs.items():
         try:
@@ -487,6 +556,53 @@ def check_include_refused(i: int, res: ShardResult | None) -> list[tuple[str, An
             res.nontrivial.add(h64([i, how]))
         if got[0] != "disabled":
             out.append((f"C07:include-allowed-inside:{how}", {"placement": placement, "how": how, "source": src}, "DisabledTagError", got))
+    return out
+
+
+# ------------------------------------------------------------------ (v) isolated scopes nested in other scopes
+
+NEST_HOSTS = [
+    # (name, root source, extra templates). Every host ends up rendering the template 'inner' (or calling the macro `im`,
+    # whose body is INNER) from inside another scope: what inner prints must equal what it prints when rendered alone.
+    ("render-in-render", "{% render 'mid'@ARG@ %}", {"mid": "{% render 'inner' %}"}),
+    ("render-in-render-in-for", "{% render 'mid'@ARG@ %}", {"mid": "{% assign a = 'midA' %}{% for b in arr %}{% render 'inner' %}{% endfor %}"}),
+    ("render-in-render-for", "{% render 'mid' for arr as a %}", {"mid": "{% render 'inner' %}"}),
+    ("render-in-overriding-block", "{% render 'child'@ARG@ %}", {"child": "{% extends 'nb' %}{% block blk %}{% render 'inner' %}{% endblock %}", "nb": "{% assign a = 'baseA' %}{% capture b %}baseB{% endcapture %}[{% block blk %}{% endblock %}]"}),
+    ("render-in-block-of-root-chain", "{% extends 'nb' %}{% block blk %}{% assign c = 'blkC' %}{% render 'inner' %}{% endblock %}", {"nb": "{% assign a = 'baseA' %}{% for b in arr limit: 1 %}[{% block blk %}{% endblock %}]{% endfor %}"}),
+    ("render-in-macro", "{% macro om a, b: 'dB' %}{% assign c = 'macC' %}{% render 'inner' %}{% endmacro %}{% call om 'argA' %}", {}),
+    ("macro-in-macro", "{% macro om a, b: 'dB' %}{% macro im %}@INNER@{% endmacro %}{% call im %}{% endmacro %}{% call om 'argA' %}", {}),
+    ("macro-in-render", "{% render 'mm'@ARG@ %}", {"mm": "{% assign b = 'mmB' %}{% macro im %}@INNER@{% endmacro %}{% call im %}"}),
+    ("macro-in-overriding-block", "{% extends 'nb' %}{% block blk %}{% macro im %}@INNER@{% endmacro %}{% call im %}{% endblock %}", {"nb": "{% assign a = 'baseA' %}[{% block blk %}{% endblock %}]"}),
+]
+
+
+def check_nested(i: int, res: ShardResult | None) -> list[tuple[str, Any, Any, Any]]:
+    out: list[tuple[str, Any, Any, Any]] = []
+    name, root, extra = NEST_HOSTS[i]
+    for arg in (ARGS if "@ARG@" in root else [""]):
+        if " for arr" in arg:
+            continue
+        src = root.replace("@ARG@", arg).replace("@INNER@", INNER)
+        templates = {"inner": INNER, **{k: v.replace("@INNER@", INNER) for k, v in extra.items()}}
+        env = impl.make_env(templates=templates, shopify=True)
+        for d in DATA:
+            alone = _render(env, "{% render 'inner' %}", d)
+            got = _render(env, src, d)
+            if res is not None:
+                res.evaluations += 2
+            if got[0] != "ok" or alone[0] != "ok":
+                if got[0] != alone[0]:
+                    out.append((f"C07:nested-scope-outcome-differs:{name}", {"host": name, "arg": arg, "source": src, "templates": templates}, list(alone), list(got)))
+                continue
+            want = region(alone[1], "(inner ", ")")
+            have = region(got[1], "(inner ", ")")
+            if res is not None:
+                if have:
+                    res.nontrivial.add(h64([name, arg, repr(d)]))
+                res.outcomes.add(h64([name, bool(have)]))
+            if any(h != want[0] for h in have):  # (no nested render at all: the host's loop ran zero times)
+                out.append((f"C07:nested-scope-sees-enclosing-scope:{name}", {"host": name, "arg": arg, "source": src, "templates": templates, "data": repr(d)}, {"inner_rendered_alone": want}, {"inner_rendered_nested": have, "output": got[1]}))
+                break
     return out
 
 
@@ -515,8 +631,9 @@ def plan(tier: str, seed: int):
     for lo, hi in chunks(len(cons), 32):
         shards.append(("cons", tier, lo, hi))
     shards.append(("incl", tier, 0, len(INCLUDE_PLACEMENTS)))
+    shards.append(("nested", tier, 0, len(NEST_HOSTS)))
     meta = {
-        "space_size": len(iso) + len(cons) + len(INCLUDE_PLACEMENTS),
+        "space_size": len(iso) + len(cons) + len(INCLUDE_PLACEMENTS) + len(NEST_HOSTS),
         "subspaces": {"isolation (body,args) cases": len(iso), "wrappers": len(wrappers(1 if tier == "quick" else 2)),
                       "block constructs": len(cons), "include placements": len(INCLUDE_PLACEMENTS)},
         "bounds": {"body_len": 2, "wrapper_depth": 1 if tier == "quick" else 2, "data_sets": len(DATA)},
@@ -543,6 +660,11 @@ def run_shard(shard) -> ShardResult:
             for sig, case, exp, obs in check_construct(cases[i], res):
                 res.violation(sig, {"part": "cons", "tier": tier, **case}, exp, obs)
         res.samples.append({"part": "cons", "case": cases[lo]})
+    elif kind == "nested":
+        for i in range(lo, hi):
+            res.cases += 1
+            for sig, case, exp, obs in check_nested(i, res):
+                res.violation(sig, {"part": "nested", "tier": tier, "index": i, **case}, exp, obs)
     else:
         for i in range(lo, hi):
             res.cases += 1
@@ -563,6 +685,9 @@ def replay(case: dict[str, Any]) -> list[dict[str, Any]]:
         if "form" in case:
             c["form"] = case["form"]
         for sig, cc, exp, obs in check_construct(c, None):
+            res.violation(sig, case, exp, obs)
+    elif part == "nested":
+        for sig, cc, exp, obs in check_nested(case["index"], None):
             res.violation(sig, case, exp, obs)
     else:
         for sig, cc, exp, obs in check_include_refused(case["index"], None):
